@@ -16,6 +16,7 @@ EncAlphabet(i) ==
   {<<k, Tagged(i, Width[k])>> : k \in {"u8", "u16", "u32", "u64", "u128"}}
   \cup {<<k, Fill(Width[k], 255)>> : k \in {"u8", "u16", "u32", "u64", "u128"}}
   \cup {<<"raw", Tagged(i, w)>> : w \in {0, 1, 3}} \cup {<<"align">>}
+  \cup {<<"ch", Tagged(i, 1)>>}                          \* PutChar, read back with ReadByte
 DecAlphabet ==
   {<<"skip", n>> : n \in {1, 3, 5}} \cup {<<"align">>, <<"pop">>}
   \cup {<<"slice", ln, rw>> : ln \in {4, 9, 12}, rw \in {0, 2}} \cup {<<"rd", w>> : w \in {1, 2, 4}}
